@@ -46,6 +46,14 @@ REPLACEMENTS = [
     "(((((((((\n",
     "uint8 X = 1e5000\n@sealed\n",
     "@sealed\n---\n@sealed\n---\n",
+    # perfectly valid definitions that merely say something else than the original (another extent, sealing, kind, layout)
+    "@sealed\n",
+    "@extent 512\n",
+    "uint8 a\n@extent 1024 * 8\n",
+    "@sealed\n---\n@sealed\n",
+    "@union\nuint8 a\nuint16 b\n@extent 64\n",
+    "@deprecated\nuint64[<=9] z\n@sealed\n",
+    "uint8 a\n@extent 48 * 8\n---\n@extent 40 * 8\n",
 ]
 
 # extra files for a lookup root: (relative file name under the root, text) - they collide with each other in every
@@ -90,7 +98,30 @@ def check_isolation(case: typing.Any, ctx: Ctx) -> Info:
         ws, fault_desc = c09.inject_fault(ws, case["fault"])
         if fault_desc is not None and fault_desc["kind"] == "duplicate-in-second-root":
             ws, fault_desc = copy.deepcopy(case["ws"]), None  # needs an extra root; not used here
+    ws = copy.deepcopy(ws)
     defs = ws["defs"]
+    shape = case.get("shape") or {}
+    if shape.get("ports"):
+        # fixed port-IDs, one per (name, major version) so that the workspace itself obeys the cross-definition rules
+        groups: typing.Dict[typing.Any, int] = {}
+        for i, x in enumerate(defs):
+            key = (wsp.full_name(ws, x), x["version"][0])
+            groups.setdefault(key, 100 + len(groups))
+            if (shape["ports"] >> (groups[key] % 16)) & 1:
+                x["port"] = groups[key]
+    sibling_index = None
+    if shape.get("unsealed") is not None and fault_desc is None:
+        # a member of the workspace forgets its @sealed / @extent (if it is in the closure the outcome is an error whose text
+        # pydsdl composes); another minor version of the same name - delimited, valid, referenced by nobody - sits next to it
+        ui = shape["unsealed"] % len(defs)
+        u = defs[ui]
+        if not u["service"] and "text" not in u:
+            u["text"] = "\n".join(wsp.body(ws, ui, u)) + "\n"
+            minors = {x["version"][1] for x in defs if (wsp.full_name(ws, x), x["version"][0]) == (wsp.full_name(ws, u), u["version"][0])}
+            free = [m for m in range(256) if m not in minors and (u["version"][0], m) != (0, 0)]
+            sib = dict(u, version=[u["version"][0], free[shape.get("minor", 0) % len(free)]], refs=[], text="uint8 a\n@extent %d * 8\n" % (40 + shape.get("minor", 0) % 7))
+            defs.append(sib)
+            sibling_index = len(defs) - 1
     n = len(defs)
     d = ctx.scratch()
     try:
@@ -102,7 +133,7 @@ def check_isolation(case: typing.Any, ctx: Ctx) -> Info:
             targets = wsp.defs_under_root(ws, ri)
 
             def run(handler: typing.Any) -> typing.Any:
-                return pydsdl.read_namespace(roots[ri], roots, handler)
+                return pydsdl.read_namespace(roots[ri], roots, handler, True)
 
         else:
             targets = []
@@ -112,14 +143,20 @@ def check_isolation(case: typing.Any, ctx: Ctx) -> Info:
             paths = [os.path.join(d, wsp.rel_path(ws, defs[i])) for i in targets]
 
             def run(handler: typing.Any) -> typing.Any:
-                return pydsdl.read_files(paths, roots, None, handler)
+                return pydsdl.read_files(paths, roots, None, handler, True)
 
         lookup_only_roots = [i for i in range(len(roots)) if all(defs[t]["root"] != i for t in targets) and not (mode == "namespace" and i == ri)]
         pre_added: typing.List[str] = []
         if case.get("pre_extra") is not None and lookup_only_roots:
             # unreferenced files that exist already before the first read (e.g. a legacy .uavcan copy next to its .dsdl twin)
             lr0 = lookup_only_roots[case["pre_extra"]["root"] % len(lookup_only_roots)]
-            for rel, text in PRE_EXTRA_SETS[case["pre_extra"]["set"] % len(PRE_EXTRA_SETS)]:
+            pre_set = PRE_EXTRA_SETS[case["pre_extra"]["set"] % len(PRE_EXTRA_SETS)]
+            ported = [i for i in targets if defs[i].get("port") is not None]
+            if ported and case["pre_extra"]["set"] % 2:
+                # an unreferenced definition elsewhere that uses the very port-ID of one of the targets (same kind, other name)
+                pt = defs[ported[case["pre_extra"]["set"] % len(ported)]]
+                pre_set = [("%d.PortTwin.1.0.dsdl" % pt["port"], "@sealed\n---\n@sealed\n" if pt["service"] else "@sealed\n")]
+            for rel, text in pre_set:
                 p0 = os.path.join(roots[lr0], rel)
                 os.makedirs(os.path.dirname(p0), exist_ok=True)
                 with open(p0, "w") as f:
@@ -142,6 +179,8 @@ def check_isolation(case: typing.Any, ctx: Ctx) -> Info:
         disturbed: typing.List[str] = []
         victims = []
         forced = [fault_desc["namesake"]] if fault_desc is not None and fault_desc.get("namesake") in outside else []
+        if sibling_index is not None and sibling_index in outside:
+            forced.append(sibling_index)
         for k, v in enumerate(forced + list(case["victims"])):
             if not outside:
                 break
@@ -206,7 +245,17 @@ def check_isolation(case: typing.Any, ctx: Ctx) -> Info:
 
 
 def parts(ctx: Ctx) -> typing.List[Part]:
-    ws = st.one_of(wsp.definitions(max_defs=8, roots=3, min_roots=2, min_defs=3), wsp.definitions(max_defs=8, roots=2, min_roots=2, min_defs=3, shorts=["A", "B"], subs=["sub"]))
+    ws = st.one_of(
+        wsp.definitions(max_defs=8, roots=3, min_roots=2, min_defs=3),
+        wsp.definitions(max_defs=8, roots=2, min_roots=2, min_defs=3, shorts=["A", "B"], subs=["sub"]),
+        wsp.definitions(max_defs=8, roots=3, min_defs=3, same_name=True, shorts=["A", "B", "Msg"], subs=["sub"]),
+    )
+    shape = st.one_of(
+        st.none(),
+        st.fixed_dictionaries({"ports": st.integers(0, 2**16 - 1)}),
+        st.fixed_dictionaries({"unsealed": st.integers(0, 30), "minor": st.integers(0, 255)}),
+        st.fixed_dictionaries({"ports": st.integers(0, 2**16 - 1), "unsealed": st.integers(0, 30), "minor": st.integers(0, 255)}),
+    )
     fault = st.one_of(
         st.none(),
         st.none(),
@@ -216,6 +265,7 @@ def parts(ctx: Ctx) -> typing.List[Part]:
         {
             "ws": ws,
             "fault": fault,
+            "shape": shape,
             "mode": st.sampled_from(["namespace", "files", "files"]),
             "root": st.integers(0, 3),
             "targets": st.lists(st.integers(0, 30), min_size=1, max_size=2),
